@@ -261,7 +261,7 @@ def layout_jobs(tier, want_valid, want_invalid):
         for i in range(16):                                           # names that split in two ways between type and relation (dotted / slashed / dashed / underscored)
             jobs.append({"id": "L%d" % len(jobs), "doc": 0, "dot": i, "viol": 0, "vsite": 0, "style": dict(BASE_STYLE), "ov": []})
             jobs.append({"id": "L%d" % len(jobs), "doc": 0, "dot": i, "viol": 0, "vsite": 0, "style": rstyle(), "ov": []})
-        for i in range(4 + 160 + 4):                                  # documents off the family: no types, empty condition bodies, wide operator lists before a group, extend + declare
+        for i in range(4 + 160 + 4 + 8):                                  # documents off the family: no types, empty condition bodies, wide operator lists before a group, extend + declare, deep nesting
             if i < 4 or i >= 164 or tier != "quick" or (i - 4) % 80 < 40 or i % 3 == 0:
                 jobs.append({"id": "L%d" % len(jobs), "doc": 0, "special": i, "viol": 0, "vsite": 0, "style": dict(BASE_STYLE) if i % 2 == 0 or i < 4 else rstyle(), "ov": []})
         for d in range(27):                                           # full-line comments in column 0 at every line break, whatever the depth
